@@ -10,7 +10,7 @@ not turn a for-all-programs claim into a decided one.
 V = ["val"]
 
 FORMS = [
-    "bind", "bindvar", "tuple", "nested", "star", "chain", "aug", "ann", "attr", "sub",
+    "bind", "bindvar", "tuple", "nested", "star", "chain", "chainstore", "aug", "ann", "attr", "sub",
     "walrus", "nestedwalrus", "if", "ifelse", "ifchain", "for", "forelse", "fortuple", "while", "try", "tryfinally",
     "with", "import", "nesteddef", "use", "pt", "ret", "retnone", "raise", "call",
 ]
@@ -118,6 +118,21 @@ class Gen:
             self.mark_int(x)
             self.mark_int(y)
             return ["chain", [x, y], self.expr()]
+        if kind == "chainstore":
+            if not self.objs:
+                o = self.name()
+                self.bound.add(o)
+                self.ints.discard(o)
+                self.objs.add(o)
+                return ["bind", o, ["obj"]]
+            o = rng.choice(sorted(self.objs))
+            x = self.name()
+            while x == o:
+                x = self.name()
+            tg = [x, ["attr", o, "n"], ["sub", o, ["var", x]], ["attr", o, "m"]]
+            rng.shuffle(tg)
+            self.mark_int(x)
+            return ["chain", tg[: rng.randint(2, 4)] if x in tg[:2] else [x] + tg[:2], self.expr()]
         if kind == "aug":
             iv = self.intvar()
             if iv is None:
@@ -175,15 +190,14 @@ class Gen:
             body = self.block(depth + 1, in_loop)
             handlers = []
             if kind == "try" or rng.random() < 0.5:
-                asn = rng.choice([None, "e", self.name()])
+                exc = rng.choice(["ProgErr", "EnvFault", "Exception", None])
+                asn = rng.choice([None, "e", self.name()]) if exc else None
                 if asn:
                     self.mark_other(asn)
                 hb = self.block(depth + 1, in_loop, rng.randint(1, 2))
                 if asn:
                     self.bound.discard(asn)  # python unbinds the name after the handler
-                handlers.append([rng.choice(["ProgErr", "EnvFault", "Exception", None]), asn, hb])
-                if handlers[-1][0] is None:
-                    handlers[-1][1] = None
+                handlers.append([exc, asn, hb])
             final = self.block(depth + 1, in_loop, 1) if kind == "tryfinally" else []
             if not handlers and not final:
                 final = [["pt"]]
@@ -260,7 +274,50 @@ def gen_function(rng, name, is_gen=False, helper=None, swarm=None):
     fn = {"name": name, "params": params, "body": body}
     if len(params) == 2 and rng.random() < 0.5:
         fn["defaults"] = 1
+    _sanitize(fn)
     return fn
+
+
+def _sanitize(fn):
+    """A name that is read but assigned nowhere in the function would be a
+    *global* (an undefined one): replace such reads, they are another property's
+    business (C16)."""
+    from . import ir
+
+    assigned = set(ir.bound_names(fn))
+
+    def fix_expr(x):
+        if not isinstance(x, list) or not x:
+            return x
+        if x[0] == "var" and x[1] not in assigned:
+            return ["val"]
+        return [fix_expr(y) if isinstance(y, list) else y for y in x]
+
+    def fix_stmts(stmts):
+        out = []
+        for st in stmts:
+            if st[0] == "use":
+                names = [n for n in st[1] if n in assigned]
+                out.append(["use", names] if names else ["pt"])
+            elif st[0] == "aug" and st[1] not in assigned:
+                out.append(["pt"])
+            else:
+                new = []
+                for part in st:
+                    if isinstance(part, list) and part and isinstance(part[0], list) and part[0] and isinstance(part[0][0], str) and st[0] not in ("chain",):
+                        # a block of statements (or, for try, a list of handlers)
+                        if st[0] == "try" and part is st[2]:
+                            new.append([[h[0], h[1], fix_stmts(h[2])] for h in part])
+                        else:
+                            new.append(fix_stmts(part))
+                    elif isinstance(part, list):
+                        new.append(fix_expr(part))
+                    else:
+                        new.append(part)
+                out.append(new)
+        return out
+
+    fn["body"] = fix_stmts(fn["body"])
 
 
 def gen_program(rng, want_gen=None):
